@@ -106,6 +106,12 @@ pub static VERIF_SIMULATE_OVERRIDE: std::sync::atomic::AtomicBool =
 pub static VERIF_SIMULATE_BALANCE_CHANGE: std::sync::atomic::AtomicI64 =
   std::sync::atomic::AtomicI64::new(0);
 
+/// Verification hook (cfg ordinals_ord_verif): every transaction returned by
+/// `fundrawtransaction`, in order (a harness clears and reads it).
+#[cfg(ordinals_ord_verif)]
+pub static VERIF_FUNDED: std::sync::Mutex<Vec<bitcoin::Transaction>> =
+  std::sync::Mutex::new(Vec::new());
+
 pub fn builder() -> Builder {
   Builder {
     fail_lock_unspent: false,
